@@ -71,29 +71,38 @@ def judgeClip (L : Lines) (A : Operand) (rhs : Tok) : String :=
       match ps.mapM pathOfBits with
       | none => s!"SPEC {cls} non-finite-coordinate-in-result"
       | some got =>
-        let core : ClipCore := { bool := fun _ _ _ => [], line := fun _ _ => got }
-        let m := clip core L A
-        if m ≠ got then s!"DIFF {cls} model-differs (model has {m.length} pieces, implementation {got.length})"
-        else if !ok then s!"OK {cls}"
+        -- the model with the sweep instantiated by the oracle: member by member, in member order
+        -- (`clip {line := oracleChains} L A` is `want`: the oracle returns nothing for a member whose
+        -- box misses the polygon's, so the member-by-member concatenation is `oracleChains c s`)
+        if !ok then
+          (if (s.all fun l => trivialCase [l] c) && !got.isEmpty then s!"DIFF {cls} model-differs (model has no piece, implementation {got.length})"
+           else s!"OK {cls}")
         else if (want.flatMap pairs) ≠ oracleSegments c s then s!"DIFF {cls} oracle-chains-inconsistent-with-oracleSegments"
         else
           -- emptiness, exactly
           if got.isEmpty ≠ oracleEmpty c s then
             s!"SPEC {cls} " ++ (if got.isEmpty then "empty-result-but-the-line-enters-the-polygon" else "non-empty-result-but-the-line-does-not-enter-the-polygon")
           else
-            -- length clause: total length and number of pieces against the oracle's inside intervals
+            -- length clause: total length against the oracle's inside intervals
             let lw := (want.map pathLen).foldl (· + ·) 0
             let lg := (got.map pathLen).foldl (· + ·) 0
-            if fabs (lw - lg) > 1e-9 * (lw + ratToFloat (extentOf s c)) || want.length ≠ got.length then
+            if fabs (lw - lg) > 1e-9 * (lw + ratToFloat (extentOf s c)) then
               s!"SPEC {cls} length-clause total-length want={lw} got={lg} pieces want={want.length} got={got.length}"
             else
               -- not only the vertices: the midpoint of every returned segment lies inside or on P (exact)
               match (got.flatMap pairs).find? (fun e => !insideClosedC c (pointAt e.1 e.2 (1/2))) with
               | some e => s!"SPEC {cls} returned-segment-leaves-the-polygon midpoint-of ({ratToFloat e.1.x},{ratToFloat e.1.y})-({ratToFloat e.2.x},{ratToFloat e.2.y}) is outside P"
               | none =>
+                -- the same chains, member by member, as the model predicts?  (implies the same segments)
                 match matchChains (extentOf s c) want got with
-                | some why => s!"SPEC {cls} {why}"
                 | none => s!"OK {cls}"
+                | some whyChains =>
+                  -- exactly the inside parts: the returned segments are the oracle's segments (undirected
+                  -- multiset); how pieces are linked is not part of the property, so a mere difference
+                  -- in the chains is a DIFF (implementation ≠ model), not a SPEC
+                  match matchChains (extentOf s c) ((want.flatMap pairs).map fun e => [e.1, e.2]) ((got.flatMap pairs).map fun e => [e.1, e.2]) with
+                  | some why => s!"SPEC {cls} segments: {why}"
+                  | none => s!"DIFF {cls} model-differs: {whyChains}"
     | _ => s!"DIFF {cls} result-is-not-a-MultiLineString"
   | _ => s!"DIFF {cls} bad-answer"
 
